@@ -278,6 +278,40 @@ def collect_schedules(chk: Check, thorough: bool):
     return scheds
 
 
+def repo_test_traces(chk: Check):
+    """Thorough tier: run the repository's own transfer tests (real sockets, real time) under the
+    observer plugin and validate every transfer's notification sequence against Edge."""
+    import json
+    import subprocess
+    import sys
+    from ..core import REPO, VERIF
+    out = tempfile.mktemp(prefix='c03-obs-', suffix='.json')
+    env = dict(os.environ, VERIF_OBS_OUT=out, PYTHONPATH=f'{os.path.join(REPO, "src")}:{VERIF}')
+    try:
+        p = subprocess.run([sys.executable, '-m', 'pytest', '-q', '-p', 'no:cacheprovider', '-p', 'harness.pytest_obs',
+                            '--timeout=600', 'tests/unit/transfer', 'tests/e2e/test_e2e_transfer.py'],
+                           cwd=REPO, env=env, stdout=subprocess.PIPE, stderr=subprocess.STDOUT, text=True, timeout=1200)
+        if not os.path.exists(out):
+            chk.notes.append('repository tests produced no observation file: ' + p.stdout[-300:])
+            return
+        with open(out) as fh:
+            data = json.load(fh)
+    finally:
+        if os.path.exists(out):
+            os.remove(out)
+    traces = [dict(chained=False, events=t) for t in data.get('transfers', []) if t]
+    if not traces:
+        return
+    v = tlc.validate_traces('TransferState/TransferStateEdgesTrace.tla', 'EdgesTrace.cfg', traces,
+                            diag_cfg='EdgesTraceDiag.cfg', timeout=900)
+    chk.cov['repo_test_transfer_traces'] = len(traces)
+    for t in traces:
+        chk.count(('repo-test', tuple((e['old'], e['new']) for e in t['events'])))
+    chk.apply_verdicts(v, traces, lambda tid, info, tr: 'C03:repo-test:illegal-edge:' +
+                       '->'.join(str((info.get('event') or {}).get(k)) for k in ('old', 'new')))
+    chk.log(f'repository test-suite traces: {len(v.accepted)} accepted, {len(v.rejected)} rejected')
+
+
 def run(chk: Check, args):
     thorough = chk.tier == 'thorough'
     chk.cov['rule'] = ('schedules = (initial state, sequence of Call/TasksGone/FileGone stimuli) projected from '
@@ -328,6 +362,9 @@ def run(chk: Check, args):
     v = tlc.validate_traces(TRACE, 'Trace.cfg', traces, diag_cfg='TraceDiag.cfg', timeout=1500)
     chk.apply_verdicts(v, traces, _fingerprint, meta_of=lambda tid: metas[tid - 1])
     chk.log(f'trace validation: {len(v.accepted)} accepted, {len(v.rejected)} rejected')
+
+    if thorough:
+        repo_test_traces(chk)
 
     # binding self-test: corrupt one recorded field -> must be rejected
     import copy
